@@ -247,7 +247,9 @@ def run(ctx):
     scns += gen(ctx, NT=4, NF=4, MaxIO=2, Sample=ctx.q(2000, 100000), FamN=0)
     if ctx.thorough:
         scns += gen(ctx, NT=5, NF=4, MaxIO=1, Sample=60000, FamN=0)   # (the universe must stay below 2^31 for RandomSubset)
-    big = ctx.q([1200], [1200, 3000])
+    # (lengths on both sides of the interpreter's recursion limit, and one well inside it: a shortcut that is only
+    # safe for small or only for large graphs shows in one of them)
+    big = ctx.q([700, 1200], [400, 700, 990, 1200, 3000])
     rng = random.Random(ctx.seed)
     cli_every = max(1, len(scns) // ctx.q(120, 2500))
     items = []
